@@ -162,6 +162,16 @@ CHECKS["C10"] = (
     "DESIGN.md section 6, C10",
 )
 
+CHECKS["C15"] = (
+    "Hypothesis-generated in-family buildings and weather years; accuracy oracle with the property's own 5% thresholds",
+    "Generated-input search over the stated family (base load, slopes, balance points, four shapes, weather years in both hemispheres, "
+    "8 zones, noise <= 1%), daily meters under the default and legacy profiles and monthly-billed meters: NRMSE of predict() against the "
+    "generating curve on the baseline year and on another year, and spurious heating/cooling load, against the 5% limits. Billing "
+    "errors of 5-25% are a listed known finding; anything above is reported.",
+    "Trusted: the generating curve in vf/gen/synth.py; discarded cases (fewer than 30 days in an active regime) are counted.",
+    "DESIGN.md section 6, C15",
+)
+
 PENDING_REASON = "check not built yet in this session (work in progress; property-based testing applies and is planned, see DESIGN.md section 6)"
 
 
